@@ -55,6 +55,16 @@ Proof.
 Qed.
 Print Assumptions C16_history_without_writes.
 
+(* kalign_free_msa forgets: after it the handle holds nothing, whatever it held before - so the calls that produced a freed
+   object are not among the calls a later object under the same handle was built by (the check's backward walk stops
+   following a handle at its free; the sliced-history theorem above is proved for the coarser walk that does not) *)
+Theorem C16_free_forgets : forall acore x y h,
+  (forall h', h' <> h -> snd x h' = snd y h') ->
+  snd (step acore x (CFree h)) = snd (step acore y (CFree h)) /\
+  forall h', snd (fst (step acore x (CFree h))) h' = snd (fst (step acore y (CFree h))) h'.
+Proof. exact step_free_forgets. Qed.
+Print Assumptions C16_free_forgets.
+
 (* ledger, at object granularity: once every handle is freed no object is left, whatever happened before *)
 Theorem C16_ledger : forall acore cs x n,
   live (snd (fst (run_history acore (fst (run_history acore x cs)) (map CFree (seq 0 n))))) n = 0%nat.
